@@ -1,15 +1,14 @@
 /-
-Skiplist model (Model/Skiplist.lean), single-level fragment: the abstraction behind
-`sl_refines_dict_partial` (Props/C17Sl.lean).
+Skiplist model (Model/Skiplist.lean): the abstraction behind `sl_refines_dict` (Props/C17Sl.lean),
+level 0.
 
-`Chain s x ids es`: following `forward[0]` from node `x` visits exactly the nodes `ids`, which
-are the plain entry nodes (level 0, refcount 1) of the entries `es`, and then ends in NULL.
-`Inv s ids es g`: the whole state between two operations of an iterator-free history whose
-`put`s all draw level 0 — header, chain strictly sorted, every linked node allocated and referenced
-once, forward arrays allocated and pairwise DISTINCT (unshared), counters.
+`Chain s x ids es`: following `forward[0]` from node `x` visits exactly the nodes `ids`, which are
+the entry nodes (any level 1..9 in the model's encoding, refcount >= 1) of the entries `es`, and
+then ends in NULL.  The whole state between two operations is `Inv` (Lemmas/SlmInv.lean); the
+higher levels are in Lemmas/SlmLevel.lean and Lemmas/SlmSearch.lean.
 
 This file: store primitives under known contents, the frame lemma, and the specification of the
-search loop of lookup/put/rm on a chain (`search_spec`).
+search loop on a single-level list (`search_spec`, kept as the one-level instance).
 -/
 import QbVerif.Model.Skiplist
 import QbVerif.Lemmas.MapList
@@ -37,12 +36,14 @@ def fwdOf (s : SL) (x : NodeId) : FwdId := match s.nodes x with | some n => n.fw
 /-- `x` and its forward array are allocated -/
 def XOk (s : SL) (x : NodeId) : Prop := ∃ n a, s.nodes x = some n ∧ s.fwds n.fwd = some a
 
-/-- `i` is the plain node of entry `e`: level 0, referenced once, forward array allocated -/
+/-- `i` is the node of entry `e`: level 0, referenced (`rc` = 1 + the iterators parked on it),
+    forward array allocated -/
 def NodeOk (s : SL) (i : NodeId) (e : Entry) : Prop :=
-  ∃ f a, s.nodes i = some ⟨some e.key, e.val, 1, 1, f, e.notifs⟩ ∧ s.fwds f = some a
+  ∃ lv rc f a, 1 ≤ rc ∧ 1 ≤ lv ∧ lv ≤ LEVEL_MAX + 1 ∧ s.nodes i = some ⟨some e.key, e.val, lv, rc, f, e.notifs⟩ ∧
+    s.fwds f = some a
 
 theorem NodeOk.xok {s : SL} {i : NodeId} {e : Entry} (h : NodeOk s i e) : XOk s i := by
-  obtain ⟨f, a, h1, h2⟩ := h
+  obtain ⟨lv, rc, f, a, _, _, _, h1, h2⟩ := h
   exact ⟨_, a, h1, h2⟩
 
 def Chain (s : SL) : NodeId → List NodeId → List Entry → Prop
@@ -70,7 +71,7 @@ theorem Chain.frame {s s' : SL} : ∀ {x ids es}, Chain s x ids es →
     | some n => simp only [hx] at h ha ⊢; rw [ha]; exact h
   | x, i :: ids, e :: es, h, hf => by
     obtain ⟨hn, ha⟩ := hf x (by simp)
-    obtain ⟨h1, ⟨f, a, h2, h3⟩, h4⟩ := h
+    obtain ⟨h1, ⟨lv, rc, f, a, hrc, hl1, hl2, h2, h3⟩, h4⟩ := h
     refine ⟨?_, ?_, Chain.frame h4 fun j hj => hf j (List.mem_cons_of_mem _ hj)⟩
     · simp only [next0, fwdOf] at *
       rw [hn]
@@ -78,7 +79,7 @@ theorem Chain.frame {s s' : SL} : ∀ {x ids es}, Chain s x ids es →
       | none => simp [hx] at h1
       | some n => simp only [hx] at h1 ha ⊢; rw [ha]; exact h1
     · obtain ⟨hn', ha'⟩ := hf i (by simp)
-      refine ⟨f, a, by rw [hn', h2], ?_⟩
+      refine ⟨lv, rc, f, a, hrc, hl1, hl2, by rw [hn', h2], ?_⟩
       simp only [fwdOf, h2] at ha'
       rw [ha', h3]
   | _, [], _ :: _, h, _ => by cases h
@@ -134,7 +135,7 @@ theorem search_spec (s : SL) (key : Key) (stopEq : Bool) : ∀ (es : List Entry)
   | e :: es, i :: ids, x, fuel, u, h, hx, hf => by
     obtain ⟨f, rfl⟩ : ∃ f, fuel = f + 1 := ⟨fuel - 1, by simp at hf; omega⟩
     obtain ⟨h1, hn, h2⟩ := h
-    obtain ⟨fi, ai, hi1, hi2⟩ := hn
+    obtain ⟨lvi, rci, fi, ai, _, _, _, hi1, hi2⟩ := hn
     by_cases hlt : Key.lt e.key key = true
     · obtain ⟨u', hu', hs⟩ := search_spec s key stopEq es ids i f (upd u 0 i) h2 ⟨_, ai, hi1, hi2⟩
         (by simp at hf ⊢; omega)
